@@ -22,6 +22,7 @@ def warm_layouts():
     C.run_tlc("ImportWalk", "ImportWalk.cfg", workers=8, timeout=3600)
     C.run_tlc("Discovery", "Discovery.cfg", workers=8, timeout=3600)
     C.run_tlc("Imports", "Imports.cfg", workers=12, timeout=3600)
+    C.run_tlc("Positions", "Positions.cfg", workers=4, timeout=3600)
     for g in ("deco", "params", "body", "doc"):
         C.run_tlc("Extract", "Extract_%s.cfg" % g, workers=4, timeout=3600)
     C.run_tlc("Plugins", "Plugins.cfg", workers=4, timeout=3600)
@@ -41,6 +42,7 @@ CHECKS = {
     "C12": concchecks.check_c12,
     "C13": diskchecks.check_c13,
     "C14": diskchecks.check_c14,
+    "C15": extractchecks.check_c15,
     "C16": depgraphs.check_c16,
     "C19": lspchecks.check_c19,
     "C20": clichecks.check_c20,
